@@ -428,7 +428,10 @@ fn gen_ce(args: &[String]) {
                 _ => 0,
             };
             // mostly legal ways so that most programs are executed
-            let way = if rng.chance(70) {
+            let way = if kd == "aview" && rng.chance(15) {
+                // hand the view on to an extern function taking `&[]i32` (must be rejected)
+                if rng.chance(50) { "xfwd" } else { "xfwdamp" }
+            } else if rng.chance(70) {
                 match kd {
                     "sptr" | "ptr" | "pptr" => *rng.pick(&ways),
                     _ => *rng.pick(&ways[..3]),
